@@ -445,7 +445,7 @@ CORPUS = [
 
 def run(ctx):
     items = []
-    ncases = ctx.n(80, 1000)
+    ncases = ctx.n(80, 500)
     maxlen = 8 if ctx.tier == "quick" else 20
     todo = [(c["stores"], c["ops"]) for c in CORPUS]
     cdir = os.path.join(os.path.dirname(os.path.dirname(os.path.dirname(os.path.abspath(__file__)))), "corpus", "C01")
